@@ -93,7 +93,7 @@ type stmtReport struct {
 func main() {
 	explore.ServeWorker(factory)
 	servePool()
-	r := common.Start("C20", "model_checking")
+	r := common.Start("C20", "fault_enumeration")
 	r.Replayer("fault", func(raw json.RawMessage) (bool, string) {
 		var c faultCase
 		if err := json.Unmarshal(raw, &c); err != nil {
@@ -324,6 +324,8 @@ func main() {
 	r.Set("fault_pairs", len(pairs))
 	r.Set("schedules", totalExec)
 	r.Set("evaluations", judged)
+	// distinct non-trivial cases: the distinct fault plans (statement, failing call(s), mode) explored, each reaching its fault
+	r.Set("distinct_nontrivial", len(singles)+len(pairs))
 	r.Set("executions_where_no_planned_fault_was_reached", notReached)
 	r.Set("fault_free_executions", faultFree)
 	r.Set("transitions", int(totalSteps))
